@@ -21,7 +21,7 @@ def _ranges(lo, hi, parts):
 def run_batch(b):
     from bromelia import utils
     from bromelia.base import DiameterAnswer
-    from bromelia.avps import ResultCodeAVP
+    from bromelia.avps import ResultCodeAVP, OriginHostAVP, OriginRealmAVP
     acc = harness.Acc()
     ints = [utils.is_result_code_family_1xxx, utils.is_result_code_family_2xxx,
             utils.is_result_code_family_3xxx, utils.is_result_code_family_4xxx,
@@ -48,8 +48,23 @@ def run_batch(b):
                 acc.violation("int-predicate-two-families", "code %d in two families" % n,
                               {"n": n, "interface": "int", "got": got})
         # answer-object interface
-        ans = DiameterAnswer(command_code=280, application_id=0)
+        # the answer around the Result-Code varies with n (header flags E/P/T, application, other AVPs, position of the
+        # Result-Code, an answer decoded from bytes): the classification may depend on the code alone
+        shape = n % 8
+        ans = DiameterAnswer(command_code=(280, 272, 316, 8388620)[n % 4], application_id=(0, 4, 16777251)[n % 3])
+        if shape in (1, 5):
+            ans.header.set_error_bit(True)
+        if shape in (2, 5):
+            ans.append(OriginHostAVP("host.example"))
         ans.append(ResultCodeAVP(n))
+        if shape in (3, 5, 6):
+            ans.append(OriginRealmAVP("example"))
+        if shape == 4:
+            ans.header.flags = bytes([ans.header.get_flags() | 0x10])          # T bit
+        if shape == 7:
+            from bromelia.base import DiameterMessage
+            ans = DiameterMessage.load(ans.dump())[0]
+        acc.counters["answer_shapes_%d" % shape] += 1
         got = [bool(p(ans)) for p in objs]
         acc.evaluations += 1
         acc.counters["obj_predicate_calls"] += 5
@@ -93,7 +108,7 @@ def main(tier, seed):
     distinct = acc.extra.pop("distinct_judged", 0)
     rc = harness.finish(PROP, tier, seed, "exploration", acc, RULE,
                         ["ResultCodeAVP(n) carries n unchanged (checked by C10/C01)",
-                         "answer-object predicates are read through DiameterAnswer.has_avp('result_code_avp')"],
+                         "answer-object predicates are read through has_avp('result_code_avp') on answers of eight shapes (E/T flag set, other AVPs before/after, other commands and applications, decoded from bytes)"],
                         t0, extra_cov={"distinct_nontrivial": distinct,
                                        "range_exhaustive": "0..65535 through both interfaces"},
                         exhaustive=True, require_counters=("int_predicate_calls", "obj_predicate_calls"))
